@@ -1,8 +1,23 @@
 package main
 
 // Translator for the decision fragment (DESIGN.md appendix B): straight-line
-// code with if / switch-on-constants / map lookup with ok / last-wins range
-// loops / early returns, over integers, booleans and strings.
+// code with if / switch / map lookup with ok / type assertion with ok / range
+// loops (folds) / early returns, over integers, booleans, strings, lists and
+// declared oracles for everything external (calls with effects, results of
+// Write, type assertions).
+//
+// Two generations of targets share this file.  The first sixteen ("legacy",
+// strict == false) keep the exact output they always had.  Targets with
+// strict == true get, in addition: scoping of every name (an unbound name is
+// a translation failure, not a Coq error), rejection of nested shadowing,
+// join points (`let x := if .. in`) instead of duplicated continuations,
+// folds over several variables, named results, calls declared per target
+// (callSpec), effect state threaded through (`tr_`, `k_`), partial
+// operations (slicing, strings.Repeat) bound through `match .. with None =>
+// <panic>`, tagless switch / fallthrough.
+//
+// The rule for everything: what is not explicitly handled is rejected
+// (x.bad), the site then falls back on the reference definition.
 
 import (
 	"fmt"
@@ -10,41 +25,97 @@ import (
 	"go/constant"
 	"go/token"
 	"go/types"
+	"sort"
 	"strings"
 
 	"golang.org/x/tools/go/packages"
 )
 
+// callSpec declares how one callee (key: see callKey) is rendered.
+// Templates: %r = receiver, %0 %1 .. = arguments (translated), %% = percent.
+type callSpec struct {
+	pure    string                              // value of the call as a Coq term; the call has no effect
+	partial bool                                // .. and the term is an option: None = the call panics
+	ev      string                              // event appended to the trace tr_
+	res     string                              // value(s) the call returns; evaluated before the event is appended and the clock ticks
+	tick    bool                                // k_ := S k_ afterwards (one more attempt of the external world)
+	state   string                              // term returning (results.., effect state): a call of another translated function with effects
+	ignore  bool                                // declared to have no effect the model tracks: the statement is dropped, with a note
+	tail    string                              // constructor applied to the effect state for a call in tail position (the function ends with it)
+	spread  bool                                // the call may pass its last argument with ... (the template sees the slice)
+	check   func(x *tr, c *ast.CallExpr) string // extra condition on the call; non-empty = why it is outside the fragment
+}
+
 type target struct {
-	pkg     func() *packages.Package
-	recv    string
-	fn      string
-	coq     string            // name of the generated definition
-	params  []string          // Coq binders, in order, e.g. "(level : Z)"
-	result  string            // Coq result type
-	final   string            // result expression at fall-through / bare return
-	opaque  map[string]string // source text -> Coq term
-	only    map[string]bool   // if set: assignments to other receiver fields are ignored
-	from    func(stmts []ast.Stmt) []ast.Stmt
-	cond    func(fd *ast.FuncDecl) ast.Expr // translate one condition instead of a body
-	comment string
+	pkg      func() *packages.Package
+	recv     string
+	fn       string
+	coq      string            // name of the generated definition
+	params   []string          // Coq binders, in order, e.g. "(level : Z)"
+	result   string            // Coq result type
+	final    string            // result expression at fall-through / bare return
+	opaque   map[string]string // source text -> Coq term
+	only     map[string]bool   // if set: assignments to other receiver fields are ignored
+	from     func(stmts []ast.Stmt) []ast.Stmt
+	cond     func(fd *ast.FuncDecl) ast.Expr // translate one condition instead of a body
+	comment  string
 	fallback string
+
+	// second generation
+	file    string              // generated file (Gen/<file>.v); "" = Decisions
+	strict  bool                // see the head of this file
+	tymap   map[string]string   // Go type, printed relative to package slog -> Coq type
+	calls   map[string]callSpec // callee key -> rendering
+	effects []string            // effect-state binders threaded through, e.g. tr_ k_
+	panicT  string              // what panic(..) and a failed partial operation yield ("" = ActPanic)
+	retfmt  string              // wrapper of returned values, e.g. "Some (%s)"
+	nilTest map[string]string   // Coq type -> nil test function (default is_nil)
+	fields  map[string]string   // field name -> accessor function for fields of non-receiver values
+	globals []string            // names defined in the imported Coq files that the renderings may mention
 }
 
 type untranslatable struct{ why string }
 
+type pend struct{ name, term string }
+
+// what continue / break / return mean inside the loop body being translated (nil = not available)
+type loopCtx struct{ cont, brk, ret func() string }
+
 type tr struct {
-	t     *target
-	p     *packages.Package
-	fd    *ast.FuncDecl
-	recv  string
-	free  map[string]bool
-	notes []string
+	t        *target
+	p        *packages.Package
+	fd       *ast.FuncDecl
+	recv     string
+	free     map[string]bool
+	notes    []string
+	bound    map[string]int // strict: names in scope
+	pending  []pend         // partial operations met in the expression being translated
+	npend    int
+	loops    []*loopCtx
+	optLoop  int      // > 0: inside the body of a loop that folds over option state
+	named    []string // Coq names of the named results (strict)
+	namedPos map[string]token.Pos
+	ignored  map[types.Object]bool
+	names    map[types.Object]string
+	fscope   *types.Scope
 }
 
 func (x *tr) bad(n ast.Node, why string) {
-	panic(untranslatable{fmt.Sprintf("%s: %s: %s", fset.Position(n.Pos()), why, clip(src(n)))})
+	panic(untranslatable{fmt.Sprintf("%s: %s: %s", relPos(n.Pos()), why, clip(src(n)))})
 }
+
+// positions are reported relative to the repository root, so that the
+// generated files do not depend on where the repository lies
+var repoRoot string
+
+func relPos(p token.Pos) string {
+	s := fset.Position(p).String()
+	if repoRoot != "" && strings.HasPrefix(s, repoRoot) {
+		s = "/repo" + s[len(repoRoot):]
+	}
+	return s
+}
+
 func clip(s string) string {
 	s = strings.ReplaceAll(s, "\n", " ")
 	if len(s) > 70 {
@@ -65,13 +136,117 @@ func sanitize(s string) string {
 	return sb.String()
 }
 
+// Go identifiers that would capture a Coq keyword or a name the generated text uses
+var reserved = map[string]bool{
+	"length": true, "app": true, "map": true, "fst": true, "snd": true, "rev": true, "repeat": true, "concat": true,
+	"firstn": true, "skipn": true, "nth": true, "negb": true, "andb": true, "orb": true, "fold_left": true, "existsb": true,
+	"fix": true, "fun": true, "let": true, "in": true, "end": true, "match": true, "with": true, "as": true, "at": true,
+	"if": true, "then": true, "else": true, "return": true, "forall": true, "exists": true, "Type": true, "Set": true, "Prop": true,
+	"Some": true, "None": true, "true": true, "false": true, "tt": true, "unit": true, "bool": true, "nat": true, "list": true,
+	"option": true, "byte": true, "bytes": true, "Z": true, "N": true, "S": true, "O": true, "error": true, "member": true,
+	"tr_": true, "k_": true, "st_": true, "brk_": true, "ret_": true,
+}
+
+func (x *tr) ident(name string) string {
+	if x.t.strict && reserved[name] {
+		return name + "_"
+	}
+	return name
+}
+
+// objName: the Coq name of a Go variable.  The translation binds by name, so a variable that is
+// declared inside the scope of another variable of the same name (of this function) gets a suffix.
+func (x *tr) objName(obj types.Object, name string) string {
+	base := x.ident(name)
+	if !x.t.strict || obj == nil || x.fscope == nil {
+		return base
+	}
+	if n, ok := x.names[obj]; ok {
+		return n
+	}
+	cnt := 0
+	if obj.Parent() != nil && obj.Parent() != x.fscope {
+		for sc := obj.Parent().Parent(); sc != nil; sc = sc.Parent() {
+			if o := sc.Lookup(name); o != nil {
+				if _, isVar := o.(*types.Var); isVar {
+					cnt++
+				}
+			}
+			if sc == x.fscope {
+				break
+			}
+		}
+	}
+	n := base
+	if cnt > 0 {
+		n = fmt.Sprintf("%s_%d", base, cnt)
+	}
+	x.names[obj] = n
+	return n
+}
+
+func (x *tr) qual(p *types.Package) string {
+	if p == x.p.Types {
+		return ""
+	}
+	return p.Name()
+}
+
 func (x *tr) kindOf(e ast.Expr) string {
-	tv, ok := x.p.TypesInfo.Types[e]
-	if !ok {
+	if !x.t.strict {
+		tv, ok := x.p.TypesInfo.Types[e]
+		if !ok {
+			return "?"
+		}
+		return kindOfType(tv.Type)
+	}
+	return x.coqType(x.p.TypesInfo.TypeOf(e))
+}
+
+// coqType maps a Go type to the Coq type of its translation ("?" = none)
+func (x *tr) coqType(t types.Type) string {
+	if t == nil {
 		return "?"
 	}
-	return kindOfType(tv.Type)
+	if x.t.tymap != nil {
+		if c, ok := x.t.tymap[types.TypeString(t, x.qual)]; ok {
+			return c
+		}
+	}
+	switch u := t.Underlying().(type) {
+	case *types.Basic:
+		switch {
+		case u.Info()&types.IsBoolean != 0:
+			return "bool"
+		case u.Info()&types.IsInteger != 0:
+			return "Z"
+		case u.Info()&types.IsString != 0:
+			return "bytes"
+		}
+	case *types.Slice:
+		el := x.coqType(u.Elem())
+		if x.t.strict && el == "?" {
+			return "?"
+		}
+		return "list " + paren(el)
+	case *types.Map:
+		if x.t.strict {
+			k, v := x.coqType(u.Key()), x.coqType(u.Elem())
+			if k == "Z" && v != "?" {
+				return "map " + paren(v) // association list keyed by Z; a receiver field is a gomap (nil-able)
+			}
+		}
+	}
+	return "?"
 }
+
+func paren(s string) string {
+	if strings.Contains(s, " ") && !strings.HasPrefix(s, "(") {
+		return "(" + s + ")"
+	}
+	return s
+}
+
 func kindOfType(t types.Type) string {
 	switch u := t.Underlying().(type) {
 	case *types.Basic:
@@ -89,7 +264,291 @@ func kindOfType(t types.Type) string {
 	return "?"
 }
 
-func (x *tr) use(v string) string { x.free[v] = true; return v }
+func (x *tr) use(v string) string {
+	if x.t.strict {
+		if x.bound[v] == 0 {
+			panic(untranslatable{"name not in scope (not a declared binder of the target, not bound before use): " + v})
+		}
+		return v
+	}
+	x.free[v] = true
+	return v
+}
+
+// bind evaluates f with the names in scope
+func (x *tr) bind(names []string, f func() string) string {
+	for _, n := range names {
+		x.bound[n]++
+	}
+	s := f()
+	for _, n := range names {
+		x.bound[n]--
+	}
+	return s
+}
+
+func (x *tr) let(nm, rhs string, body func() string) string {
+	return fmt.Sprintf("let %s := %s in\n  %s", nm, rhs, x.bind([]string{nm}, body))
+}
+
+func tuple(names []string) string {
+	if len(names) == 1 {
+		return names[0]
+	}
+	return "(" + strings.Join(names, ", ") + ")"
+}
+
+func (x *tr) letTuple(names []string, rhs string, body func() string) string {
+	if len(names) == 1 {
+		return x.let(names[0], rhs, body)
+	}
+	return fmt.Sprintf("let '%s := %s in\n  %s", tuple(names), rhs, x.bind(names, body))
+}
+
+// scrut: a term in the scrutinee position of a match
+func scrut(t string) string {
+	if strings.HasPrefix(t, "if ") || strings.HasPrefix(t, "match ") {
+		return "(" + t + ")"
+	}
+	return t
+}
+
+func (x *tr) panicTerm() string {
+	if x.optLoop > 0 {
+		return "None" // the step of a fold over option state
+	}
+	if x.t.panicT != "" {
+		return x.t.panicT
+	}
+	return "ActPanic"
+}
+
+// hoist wraps body in the bindings of the partial operations met since mark
+func (x *tr) hoist(mark int, body func() string) string {
+	ps := append([]pend{}, x.pending[mark:]...)
+	x.pending = x.pending[:mark]
+	if len(ps) == 0 {
+		return body()
+	}
+	var names []string
+	for _, p := range ps {
+		names = append(names, p.name)
+	}
+	inner := x.bind(names, body)
+	for i := len(ps) - 1; i >= 0; i-- {
+		inner = fmt.Sprintf("match %s with\n  | None => %s\n  | Some %s => %s\n  end", scrut(ps[i].term), x.panicTerm(), ps[i].name, inner)
+	}
+	return inner
+}
+
+// noPending: the construct does not support partial operations in this position
+func (x *tr) noPending(mark int, n ast.Node) {
+	if len(x.pending) > mark {
+		x.bad(n, "operation that can panic in a position where it is not supported")
+	}
+}
+
+func (x *tr) partial(term string) string {
+	x.npend++
+	nm := fmt.Sprintf("r%d_", x.npend)
+	x.pending = append(x.pending, pend{nm, term})
+	x.bound[nm]++ // in scope for the rest of the expression; hoist re-binds it around the body
+	return nm
+}
+
+func (x *tr) hoistDone(mark int) {
+	// names handed out by partial() stay bound only until the statement is assembled
+	for _, p := range x.pending[mark:] {
+		x.bound[p.name]--
+	}
+}
+
+// callKey names the callee: "LWs.WriteLeveled", "*Entry.Warn", "LogWriter.Write", "fmt.Sprintf", "len", "collectWrittenBytes"
+func (x *tr) callKey(c *ast.CallExpr) string {
+	switch f := c.Fun.(type) {
+	case *ast.Ident:
+		return f.Name
+	case *ast.SelectorExpr:
+		if sel, ok := x.p.TypesInfo.Selections[f]; ok {
+			if x.pkgVar(f.X) != "" {
+				if k := x.pkgVar(f.X) + "." + f.Sel.Name; x.hasCall(k) {
+					return k // a method of one particular package-level object, e.g. defaultLog.Warn
+				}
+			}
+			return types.TypeString(sel.Recv(), x.qual) + "." + f.Sel.Name
+		}
+		if id, ok := f.X.(*ast.Ident); ok {
+			if pn, ok := x.p.TypesInfo.Uses[id].(*types.PkgName); ok {
+				return pn.Imported().Name() + "." + f.Sel.Name
+			}
+		}
+	}
+	return ""
+}
+
+// pkgVar: the name of the package-level variable e is, or ""
+func (x *tr) pkgVar(e ast.Expr) string {
+	if id, ok := e.(*ast.Ident); ok {
+		if v, ok := x.p.TypesInfo.Uses[id].(*types.Var); ok && v.Parent() == x.p.Types.Scope() {
+			return id.Name
+		}
+	}
+	return ""
+}
+
+func (x *tr) hasCall(k string) bool { _, ok := x.t.calls[k]; return ok }
+
+func (x *tr) fill(tmpl string, c *ast.CallExpr) string { return x.fillWith(tmpl, c, nil) }
+
+// fillWith: args, if given, are the arguments already translated
+func (x *tr) fillWith(tmpl string, c *ast.CallExpr, args []string) string {
+	var sb strings.Builder
+	for i := 0; i < len(tmpl); i++ {
+		if tmpl[i] != '%' || i+1 == len(tmpl) {
+			sb.WriteByte(tmpl[i])
+			continue
+		}
+		i++
+		switch ch := tmpl[i]; {
+		case ch == '%':
+			sb.WriteByte('%')
+		case ch == 'r':
+			se, ok := c.Fun.(*ast.SelectorExpr)
+			if !ok {
+				x.bad(c, "call without a receiver")
+			}
+			sb.WriteString(x.expr(se.X))
+		case ch >= '0' && ch <= '9':
+			k := int(ch - '0')
+			if k >= len(c.Args) {
+				x.bad(c, "call with fewer arguments than its declaration")
+			}
+			if args != nil {
+				sb.WriteString(args[k])
+			} else {
+				sb.WriteString(x.expr(c.Args[k]))
+			}
+		default:
+			sb.WriteByte('%')
+			sb.WriteByte(ch)
+		}
+	}
+	return sb.String()
+}
+
+// checkArgs: every argument (also the ones the rendering drops) must itself be inside the fragment
+func (x *tr) checkArgs(c *ast.CallExpr) {
+	if c.Ellipsis != token.NoPos {
+		if cs, ok := x.t.calls[x.callKey(c)]; !ok || !cs.spread {
+			x.bad(c, "call with a spread argument")
+		}
+	}
+	mark := len(x.pending)
+	for _, a := range c.Args {
+		x.expr(a)
+	}
+	x.noPending(mark, c)
+}
+
+func (x *tr) sprintf(c *ast.CallExpr) string {
+	if len(c.Args) == 0 {
+		x.bad(c, "Sprintf without a format")
+	}
+	tv, ok := x.p.TypesInfo.Types[c.Args[0]]
+	if !ok || tv.Value == nil || tv.Value.Kind() != constant.String {
+		x.bad(c, "Sprintf with a format that is not a constant")
+	}
+	f := constant.StringVal(tv.Value)
+	var parts []string
+	lit := ""
+	flush := func() {
+		if lit != "" {
+			parts = append(parts, cBytes(lit))
+			lit = ""
+		}
+	}
+	arg := 1
+	for i := 0; i < len(f); i++ {
+		if f[i] != '%' {
+			lit += string(f[i])
+			continue
+		}
+		i++
+		if i == len(f) {
+			x.bad(c, "Sprintf format ends in %")
+		}
+		switch f[i] {
+		case '%':
+			lit += "%"
+		case 'd', 's':
+			if arg >= len(c.Args) {
+				x.bad(c, "Sprintf with missing arguments")
+			}
+			k := x.kindOf(c.Args[arg])
+			a := x.expr(c.Args[arg])
+			flush()
+			switch {
+			case f[i] == 'd' && k == "Z":
+				parts = append(parts, "dec_of_Z "+paren(a))
+			case f[i] == 's' && k == "bytes" && types.TypeString(x.p.TypesInfo.TypeOf(c.Args[arg]), x.qual) == "string":
+				parts = append(parts, a)
+			default:
+				x.bad(c, "Sprintf verb/argument combination outside the fragment")
+			}
+			arg++
+		default:
+			x.bad(c, "Sprintf verb outside the fragment")
+		}
+	}
+	flush()
+	if arg != len(c.Args) {
+		x.bad(c, "Sprintf with extra arguments")
+	}
+	if len(parts) == 0 {
+		return "(@nil byte)"
+	}
+	return "(" + strings.Join(parts, " ++ ") + ")"
+}
+
+func (x *tr) nilTestOf(kind string, n ast.Node) string {
+	if f, ok := x.t.nilTest[kind]; ok {
+		return f
+	}
+	if x.t.strict {
+		switch {
+		case kind == "error":
+			return "err_is_nil"
+		case strings.HasPrefix(kind, "option "), strings.HasPrefix(kind, "gomap "):
+			return "is_nil"
+		}
+		x.bad(n, "nil test on a value whose translation does not distinguish nil ("+kind+")")
+	}
+	return "is_nil"
+}
+
+func (x *tr) nilOf(kind string, n ast.Node) string {
+	switch {
+	case kind == "error":
+		return "err_nil"
+	case strings.HasPrefix(kind, "option "), strings.HasPrefix(kind, "gomap "):
+		return "None"
+	}
+	x.bad(n, "nil of a type outside the fragment ("+kind+")")
+	return ""
+}
+
+// fieldKind: the Coq type of a selector expression on the receiver (maps are nil-able gomaps there)
+func (x *tr) exprKind(e ast.Expr) string {
+	k := x.kindOf(e)
+	if strings.HasPrefix(k, "map ") {
+		if se, ok := e.(*ast.SelectorExpr); ok {
+			if id, ok := se.X.(*ast.Ident); ok && id.Name == x.recv {
+				return "gomap " + k[4:]
+			}
+		}
+	}
+	return k
+}
 
 func (x *tr) expr(e ast.Expr) string {
 	if t, ok := x.t.opaque[src(e)]; ok {
@@ -113,14 +572,47 @@ func (x *tr) expr(e ast.Expr) string {
 		case "true", "false":
 			return z.Name
 		}
+		if x.t.strict && z.Name == "nil" {
+			return x.nilOf(x.kindOf(z), z)
+		}
 		if obj := x.p.TypesInfo.Uses[z]; obj != nil {
 			if v, ok := obj.(*types.Var); ok && v.Parent() == x.p.Types.Scope() {
 				return x.use("g_" + z.Name) // package-level variable
 			}
+			if x.t.strict {
+				if x.ignored[obj] {
+					x.bad(z, "use of a variable whose assignments were dropped as untracked")
+				}
+				if _, ok := obj.(*types.Var); !ok {
+					x.bad(z, "identifier that is not a variable or a constant")
+				}
+			}
 		}
-		return x.use(z.Name)
+		return x.use(x.objName(x.p.TypesInfo.Uses[z], z.Name))
 	case *ast.SelectorExpr:
+		if x.t.strict {
+			id, ok := z.X.(*ast.Ident)
+			if !ok {
+				x.bad(z, "selector on something that is not a plain name")
+			}
+			sel, isSel := x.p.TypesInfo.Selections[z]
+			if !isSel || sel.Kind() != types.FieldVal {
+				x.bad(z, "selector that is not a field")
+			}
+			if id.Name != x.recv {
+				// a field of a local value: an accessor function the target declares
+				f, ok := x.t.fields[z.Sel.Name]
+				if !ok {
+					x.bad(z, "field of a value that is not the receiver")
+				}
+				return "(" + x.use(f) + " " + x.expr(z.X) + ")"
+			}
+		}
 		return x.use(sanitize(src(z)))
+	case *ast.StarExpr:
+		if nm, ok := x.deref(z); ok {
+			return x.use(nm)
+		}
 	case *ast.UnaryExpr:
 		switch z.Op {
 		case token.NOT:
@@ -130,18 +622,42 @@ func (x *tr) expr(e ast.Expr) string {
 		}
 	case *ast.BinaryExpr:
 		if src(z.Y) == "nil" && (z.Op == token.EQL || z.Op == token.NEQ) {
-			r := "(is_nil " + x.expr(z.X) + ")"
+			r := "(" + x.nilTestOf(x.exprKind(z.X), z) + " " + x.expr(z.X) + ")"
 			if z.Op == token.NEQ {
 				r = "(negb " + r + ")"
 			}
 			return r
 		}
-		a, b := x.expr(z.X), x.expr(z.Y)
+		a := x.expr(z.X)
+		mark := len(x.pending)
+		b := x.expr(z.Y)
 		k := x.kindOf(z.X)
+		if x.t.strict && k != x.kindOf(z.Y) {
+			x.bad(z, "operands of different translated types")
+		}
 		switch z.Op {
-		case token.LAND:
-			return "(" + a + " && " + b + ")"
-		case token.LOR:
+		case token.LAND, token.LOR:
+			if len(x.pending) > mark {
+				// the right operand can panic, and Go evaluates it only when the left one does not
+				// decide: the whole test becomes ONE partial operation
+				if !x.t.strict || k != "bool" {
+					x.bad(z, "operation that can panic in a position where it is not supported")
+				}
+				ps := append([]pend{}, x.pending[mark:]...)
+				x.pending = x.pending[:mark]
+				opt := "Some " + paren(b)
+				for i := len(ps) - 1; i >= 0; i-- {
+					x.bound[ps[i].name]--
+					opt = fmt.Sprintf("match %s with None => None | Some %s => %s end", scrut(ps[i].term), ps[i].name, opt)
+				}
+				if z.Op == token.LAND {
+					return x.partial("if " + a + " then " + opt + " else Some false")
+				}
+				return x.partial("if " + a + " then Some true else " + opt)
+			}
+			if z.Op == token.LAND {
+				return "(" + a + " && " + b + ")"
+			}
 			return "(" + a + " || " + b + ")"
 		case token.EQL, token.NEQ:
 			var eq string
@@ -163,6 +679,17 @@ func (x *tr) expr(e ast.Expr) string {
 				return "(negb " + eq + ")"
 			}
 			return eq
+		}
+		if x.t.strict && k == "bytes" {
+			if z.Op == token.ADD {
+				return "(" + a + " ++ " + b + ")"
+			}
+			x.bad(z, "string operator outside the fragment")
+		}
+		if x.t.strict && k != "Z" {
+			x.bad(z, "arithmetic on a type outside the fragment")
+		}
+		switch z.Op {
 		case token.LSS:
 			return "(" + a + " <? " + b + ")"
 		case token.LEQ:
@@ -180,7 +707,94 @@ func (x *tr) expr(e ast.Expr) string {
 		case token.SUB:
 			return "(" + a + " - " + b + ")"
 		}
+	case *ast.SliceExpr:
+		// t[:n] / t[n:] on a string: panics outside 0..len(t)
+		if x.t.strict && z.Low == nil && z.High != nil && !z.Slice3 && x.kindOf(z.X) == "bytes" && x.kindOf(z.High) == "Z" {
+			return x.partial("str_prefix " + paren(x.expr(z.X)) + " " + paren(x.expr(z.High)))
+		}
+		if x.t.strict && z.Low != nil && z.High == nil && !z.Slice3 && x.kindOf(z.X) == "bytes" && x.kindOf(z.Low) == "Z" {
+			return x.partial("str_suffix " + paren(x.expr(z.X)) + " " + paren(x.expr(z.Low)))
+		}
+	case *ast.IndexExpr:
+		// s[i] on a string: the byte as a number; panics outside 0..len(s)-1
+		if x.t.strict && x.kindOf(z.X) == "bytes" && x.kindOf(z.Index) == "Z" {
+			return x.partial("str_at " + paren(x.expr(z.X)) + " " + paren(x.expr(z.Index)))
+		}
 	case *ast.CallExpr:
+		key := x.callKey(z)
+		if cs, ok := x.t.calls[key]; ok {
+			if cs.pure == "" {
+				x.bad(z, "call with effects inside an expression")
+			}
+			// the arguments are evaluated once, in order, whether or not the rendering shows them
+			// (operations among them that can panic are hoisted like everywhere else)
+			if z.Ellipsis != token.NoPos && !cs.spread {
+				x.bad(z, "call with a spread argument")
+			}
+			if cs.check != nil {
+				if why := cs.check(x, z); why != "" {
+					x.bad(z, why)
+				}
+			}
+			args := make([]string, len(z.Args))
+			for i, a := range z.Args {
+				args[i] = x.expr(a)
+			}
+			t := x.fillWith(cs.pure, z, args)
+			if cs.partial {
+				return x.partial(t)
+			}
+			return "(" + t + ")"
+		}
+		if x.t.strict {
+			switch key {
+			case "fmt.Sprintf":
+				return x.sprintf(z)
+			case "strings.Repeat":
+				if len(z.Args) == 2 {
+					return x.partial("str_repeat " + paren(x.expr(z.Args[0])) + " " + paren(x.expr(z.Args[1])))
+				}
+			case "append":
+				// append(a, b...) / append(a, x, y): the value; the translation has no aliasing to lose
+				if k := x.kindOf(z.Args[0]); strings.HasPrefix(k, "list ") && len(z.Args) >= 2 {
+					a := x.expr(z.Args[0])
+					if z.Ellipsis != token.NoPos {
+						if len(z.Args) == 2 && x.kindOf(z.Args[1]) == k {
+							return "(" + a + " ++ " + x.expr(z.Args[1]) + ")"
+						}
+					} else {
+						var els []string
+						for _, e := range z.Args[1:] {
+							if "list "+paren(x.kindOf(e)) != k && "list "+x.kindOf(e) != k {
+								x.bad(z, "append of an element of another translated type")
+							}
+							els = append(els, x.expr(e))
+						}
+						return "(" + a + " ++ [" + strings.Join(els, "; ") + "])"
+					}
+				}
+			case "strings.ToLower":
+				if len(z.Args) == 1 {
+					return "(to_lower " + x.expr(z.Args[0]) + ")"
+				}
+			case "len":
+				if k := x.kindOf(z.Args[0]); k == "bytes" || strings.HasPrefix(k, "list ") {
+					return "(Z.of_nat (List.length " + x.expr(z.Args[0]) + "))"
+				}
+			}
+			if tv, ok := x.p.TypesInfo.Types[z.Fun]; ok && tv.IsType() && len(z.Args) == 1 {
+				// conversion T(x) between integer types: the identity on Z (DESIGN.md 2.1: int, Level,
+				// Flags are unbounded), but only where Go cannot wrap: to int / int64 or to a type of the
+				// same underlying kind as the argument
+				if b, ok := tv.Type.Underlying().(*types.Basic); ok && x.coqType(tv.Type) == "Z" && x.kindOf(z.Args[0]) == "Z" {
+					ab, _ := x.p.TypesInfo.TypeOf(z.Args[0]).Underlying().(*types.Basic)
+					if b.Kind() == types.Int || b.Kind() == types.Int64 || (ab != nil && ab.Kind() == b.Kind()) {
+						return x.expr(z.Args[0])
+					}
+				}
+			}
+			x.bad(z, "call outside the fragment ("+key+")")
+		}
 		s := src(z)
 		switch {
 		case s == "states.Env().GetDebugMode()" || s == "is.DebugMode()":
@@ -218,8 +832,61 @@ func (x *tr) expr(e ast.Expr) string {
 	return ""
 }
 
+// stateWrite: a write to something that outlives the call (a field of the receiver, a package-level
+// variable, the target of a pointer) is only translated if the target hands that binder back - in its
+// final expression or as threaded effect state; otherwise the write would be lost silently
+func (x *tr) stateWrite(lhs ast.Expr, nm string) {
+	if _, isLocal := lhs.(*ast.Ident); isLocal && !strings.HasPrefix(nm, "g_") {
+		return
+	}
+	for _, e := range x.t.effects {
+		if e == nm {
+			return
+		}
+	}
+	isId := func(c byte) bool {
+		return c == '_' || c == '\'' || c >= '0' && c <= '9' || c >= 'a' && c <= 'z' || c >= 'A' && c <= 'Z'
+	}
+	f := x.t.final
+	for i := 0; i+len(nm) <= len(f); i++ {
+		if f[i:i+len(nm)] == nm && (i == 0 || !isId(f[i-1])) && (i+len(nm) == len(f) || !isId(f[i+len(nm)])) {
+			return
+		}
+	}
+	x.bad(lhs, "write to state that the target does not return ("+nm+")")
+}
+
+// deref: *p where p is a pointer parameter the target threads through as state (its pointee is the
+// binder of that name; the pointer itself is only ever passed on to declared calls)
+func (x *tr) deref(z *ast.StarExpr) (string, bool) {
+	if !x.t.strict {
+		return "", false
+	}
+	id, ok := z.X.(*ast.Ident)
+	if !ok {
+		return "", false
+	}
+	obj, _ := x.p.TypesInfo.Uses[id].(*types.Var)
+	if obj == nil || x.fscope == nil || obj.Parent() != x.fscope {
+		return "", false
+	}
+	if _, isPtr := obj.Type().Underlying().(*types.Pointer); !isPtr {
+		return "", false
+	}
+	for _, e := range x.t.effects {
+		if e == x.ident(id.Name) {
+			return e, true
+		}
+	}
+	return "", false
+}
+
 func (x *tr) lhsName(e ast.Expr) (string, bool) {
 	switch z := e.(type) {
+	case *ast.StarExpr:
+		if nm, ok := x.deref(z); ok {
+			return nm, true
+		}
 	case *ast.Ident:
 		if z.Name == "_" {
 			return "", false
@@ -229,9 +896,17 @@ func (x *tr) lhsName(e ast.Expr) (string, bool) {
 				return "g_" + z.Name, true
 			}
 		}
-		return z.Name, true
+		return x.objName(x.p.TypesInfo.ObjectOf(z), z.Name), true
 	case *ast.SelectorExpr:
+		if x.t.strict {
+			if id, ok := z.X.(*ast.Ident); !ok || id.Name != x.recv {
+				x.bad(z, "assignment to a field of something that is not the receiver")
+			}
+		}
 		return sanitize(src(z)), true
+	}
+	if x.t.strict {
+		x.bad(e, "assignment target outside the fragment")
 	}
 	return "", false
 }
@@ -246,6 +921,32 @@ func zeroOf(k string) string {
 		return "(@nil byte)"
 	}
 	return "[]"
+}
+
+func (x *tr) zeroOfKind(k string, n ast.Node) string {
+	if !x.t.strict {
+		return zeroOf(k)
+	}
+	switch {
+	case k == "Z":
+		return "0"
+	case k == "bool":
+		return "false"
+	case k == "bytes":
+		return "(@nil byte)"
+	case k == "error":
+		return "err_nil"
+	case strings.HasPrefix(k, "list "):
+		return "(@nil " + paren(k[5:]) + ")"
+	case strings.HasPrefix(k, "map "):
+		return "(@nil (Z * " + paren(k[4:]) + "))"
+	case strings.HasPrefix(k, "option "):
+		return "(@None " + paren(k[7:]) + ")"
+	case strings.HasPrefix(k, "gomap "):
+		return "(@None (list (Z * " + paren(k[6:]) + ")))"
+	}
+	x.bad(n, "zero value of a type outside the fragment ("+k+")")
+	return ""
 }
 
 // assigned collects the names assigned anywhere in the statements
@@ -266,6 +967,112 @@ func (x *tr) assigned(stmts []ast.Stmt) []string {
 		})
 	}
 	return out
+}
+
+// outerAssigned (strict): names assigned in the statements whose variable is declared outside of
+// them, in order of first assignment, followed by the effect-state binders if an effect occurs inside
+func (x *tr) outerAssigned(stmts []ast.Stmt) []string {
+	if len(stmts) == 0 {
+		return nil
+	}
+	lo, hi := stmts[0].Pos(), stmts[len(stmts)-1].End()
+	seen := map[string]bool{}
+	var out []string
+	pos := map[string]token.Pos{}
+	add := func(l ast.Expr) {
+		if x.ignorable(l) {
+			return
+		}
+		var at token.Pos
+		if id, ok := l.(*ast.Ident); ok {
+			if id.Name == "_" {
+				return
+			}
+			obj := x.p.TypesInfo.ObjectOf(id)
+			if obj == nil || x.ignored[obj] {
+				return
+			}
+			if obj.Pos() >= lo && obj.Pos() < hi {
+				return // declared inside
+			}
+			at = obj.Pos()
+		}
+		if nm, ok := x.lhsName(l); ok && !seen[nm] {
+			seen[nm] = true
+			pos[nm] = at
+			out = append(out, nm)
+		}
+	}
+	effect := false
+	for _, s := range stmts {
+		ast.Inspect(s, func(n ast.Node) bool {
+			switch z := n.(type) {
+			case *ast.AssignStmt:
+				for _, l := range z.Lhs {
+					add(l)
+				}
+			case *ast.IncDecStmt:
+				add(z.X)
+			case *ast.ReturnStmt:
+				if len(z.Results) > 0 && len(x.loops) >= 0 {
+					for _, nm := range x.named {
+						if !seen[nm] {
+							seen[nm] = true
+							pos[nm] = x.namedPos[nm]
+							out = append(out, nm)
+						}
+					}
+				}
+			case *ast.CallExpr:
+				if cs, ok := x.t.calls[x.callKey(z)]; ok && (cs.ev != "" || cs.tick || cs.state != "" || cs.tail != "") {
+					effect = true
+				}
+			}
+			return true
+		})
+	}
+	// canonical order: fields first, then variables in the order of their declarations (so that
+	// reordering statements does not change the shape of the generated state)
+	sort.SliceStable(out, func(i, j int) bool { return pos[out[i]] < pos[out[j]] })
+	if effect {
+		for _, e := range x.t.effects {
+			if !seen[e] {
+				seen[e] = true
+				out = append(out, e)
+			}
+		}
+	}
+	return out
+}
+
+// abrupt: can the statements end other than by running off their end?
+func (x *tr) abrupt(stmts []ast.Stmt) bool {
+	found := false
+	for _, s := range stmts {
+		ast.Inspect(s, func(n ast.Node) bool {
+			switch z := n.(type) {
+			case *ast.ReturnStmt, *ast.BranchStmt, *ast.GoStmt, *ast.DeferStmt, *ast.FuncLit, *ast.LabeledStmt, *ast.SelectStmt:
+				found = true
+			case *ast.CallExpr:
+				switch key := x.callKey(z); key {
+				case "panic", "os.Exit", "strings.Repeat":
+					found = true
+				default:
+					if cs, ok := x.t.calls[key]; ok && (cs.tail != "" || cs.partial) {
+						found = true
+					}
+				}
+			case *ast.SliceExpr:
+				found = true // an operation that can panic ends the whole function, not just the statement
+			case *ast.IndexExpr:
+				if _, isMap := x.p.TypesInfo.TypeOf(z.X).Underlying().(*types.Map); !isMap {
+					found = true
+				}
+			}
+			return true
+		})
+	}
+	return found
 }
 
 func hasReturn(stmts []ast.Stmt) bool {
@@ -293,36 +1100,217 @@ func (x *tr) ignorable(lhs ast.Expr) bool {
 	return false
 }
 
+func elseList(z *ast.IfStmt) []ast.Stmt {
+	if b, ok := z.Else.(*ast.BlockStmt); ok {
+		return b.List
+	} else if z.Else != nil {
+		return []ast.Stmt{z.Else}
+	}
+	return nil
+}
+
+func cat(a []ast.Stmt, b []ast.Stmt) []ast.Stmt { return append(append([]ast.Stmt{}, a...), b...) }
+
+// effectCall renders a call statement / call assignment with a declared rendering.
+// lhs: the Coq names receiving the results (may be empty).
+func (x *tr) effectCall(c *ast.CallExpr, cs callSpec, lhs []string, n ast.Node, tail func() string) string {
+	x.checkArgs(c)
+	if se, ok := c.Fun.(*ast.SelectorExpr); ok {
+		if _, isSel := x.p.TypesInfo.Selections[se]; isSel && x.pkgVar(se.X) == "" {
+			if id, ok := se.X.(*ast.Ident); !ok || id.Name != x.recv { // (a method of the receiver itself: the declaration says what it reads)
+				x.expr(se.X) // the receiver must be in the fragment too
+			}
+		}
+	}
+	switch {
+	case cs.ignore:
+		if len(lhs) > 0 {
+			x.bad(n, "result of a call declared as without tracked effect is used")
+		}
+		x.notes = append(x.notes, "no tracked effect (declared): "+clip(src(n)))
+		return tail()
+	case cs.state != "":
+		names := append(append([]string{}, lhs...), x.t.effects...)
+		return x.letTuple(names, x.fill(cs.state, c), tail)
+	case cs.pure != "":
+		if len(lhs) == 0 {
+			x.bad(n, "value of a pure call is dropped")
+		}
+		mark := len(x.pending)
+		t := x.expr(c)
+		return x.hoistStmt(mark, func() string { return x.letTuple(lhs, t, tail) })
+	case cs.tail != "":
+		x.bad(n, "call declared as a tail call where its result is used")
+	}
+	// res / ev / tick
+	var f func() string
+	f = func() string {
+		g := tail
+		if cs.tick {
+			h := g
+			g = func() string { return x.let("k_", "S k_", h) }
+		}
+		if cs.ev != "" {
+			h := g
+			ev := x.fill(cs.ev, c)
+			g = func() string { return x.let("tr_", "tr_ ++ ["+ev+"]", h) }
+		}
+		return g()
+	}
+	if cs.res != "" {
+		if len(lhs) == 0 {
+			// results dropped by the caller: still an attempt
+			return f()
+		}
+		return x.letTuple(lhs, x.fill(cs.res, c), f)
+	}
+	if len(lhs) > 0 {
+		x.bad(n, "result of a call whose declaration has no result")
+	}
+	return f()
+}
+
+func (x *tr) hoistStmt(mark int, body func() string) string {
+	x.hoistDone(mark)
+	return x.hoist(mark, body)
+}
+
+// results renders the values of a return statement
+func (x *tr) results(z *ast.ReturnStmt) string {
+	if len(z.Results) == 0 {
+		return x.t.final
+	}
+	if id, ok := z.Results[0].(*ast.Ident); ok && id.Name == x.recv && !x.t.strict {
+		return x.t.final
+	}
+	mark := len(x.pending)
+	var parts []string
+	for i, r := range z.Results {
+		if id, ok := r.(*ast.Ident); ok && id.Name == "nil" && x.t.strict {
+			// an untyped nil takes the type of the result it is returned as
+			sig := x.p.TypesInfo.Defs[x.fd.Name].Type().(*types.Signature)
+			if sig.Results().Len() != len(z.Results) {
+				x.bad(z, "return form")
+			}
+			parts = append(parts, x.nilOf(x.coqType(sig.Results().At(i).Type()), r))
+			continue
+		}
+		parts = append(parts, x.expr(r))
+	}
+	if x.t.strict {
+		for _, e := range x.t.effects {
+			parts = append(parts, x.use(e))
+		}
+	}
+	v := parts[0]
+	if len(parts) > 1 {
+		v = "(" + strings.Join(parts, ", ") + ")"
+	}
+	if x.t.retfmt != "" {
+		v = fmt.Sprintf(x.t.retfmt, v)
+	}
+	if !x.t.strict {
+		return v
+	}
+	return x.hoistStmt(mark, func() string { return v })
+}
+
 func (x *tr) seq(stmts []ast.Stmt, k func() string) string {
 	if len(stmts) == 0 {
 		return k()
 	}
 	s := stmts[0]
-	tail := func() string { return x.seq(stmts[1:], k) }
+	rest := stmts[1:]
+	tail := func() string { return x.seq(rest, k) }
+
+	// join point (strict): a statement that can only complete normally, followed by more
+	// statements, becomes `let (assigned) := <statement> in <rest>` instead of copying the rest
+	if x.t.strict && len(rest) > 0 {
+		switch s.(type) {
+		case *ast.IfStmt, *ast.SwitchStmt:
+			if !x.abrupt([]ast.Stmt{s}) {
+				if vars := x.outerAssigned([]ast.Stmt{s}); len(vars) > 0 {
+					for _, v := range vars {
+						x.use(v) // every joined variable must already have a value
+					}
+					val := x.seq([]ast.Stmt{s}, func() string { return tuple(vars) })
+					return x.letTuple(vars, val, tail)
+				}
+			}
+		}
+	}
+
 	switch z := s.(type) {
 	case *ast.EmptyStmt:
 		return tail()
 	case *ast.BlockStmt:
-		return x.seq(append(append([]ast.Stmt{}, z.List...), stmts[1:]...), k)
+		return x.seq(cat(z.List, rest), k)
 	case *ast.DeclStmt:
 		gd := z.Decl.(*ast.GenDecl)
 		if gd.Tok == token.VAR {
-			out := ""
+			if !x.t.strict {
+				out := ""
+				for _, sp := range gd.Specs {
+					vs := sp.(*ast.ValueSpec)
+					for i, n := range vs.Names {
+						val := ""
+						if i < len(vs.Values) {
+							val = x.expr(vs.Values[i])
+						} else {
+							val = zeroOf(kindOfType(x.p.TypesInfo.Defs[n].Type()))
+						}
+						out += fmt.Sprintf("let %s := %s in\n  ", n.Name, val)
+					}
+				}
+				return out + tail()
+			}
+			type dv struct{ nm, val string }
+			var ds []dv
+			mark := len(x.pending)
 			for _, sp := range gd.Specs {
 				vs := sp.(*ast.ValueSpec)
+				if len(vs.Values) != 0 && len(vs.Values) != len(vs.Names) {
+					x.bad(z, "declaration form")
+				}
 				for i, n := range vs.Names {
+					if n.Name == "_" {
+						x.bad(z, "declaration form")
+					}
 					val := ""
 					if i < len(vs.Values) {
 						val = x.expr(vs.Values[i])
 					} else {
-						val = zeroOf(kindOfType(x.p.TypesInfo.Defs[n].Type()))
+						val = x.zeroOfKind(x.coqType(x.p.TypesInfo.Defs[n].Type()), n)
 					}
-					out += fmt.Sprintf("let %s := %s in\n  ", n.Name, val)
+					ds = append(ds, dv{x.objName(x.p.TypesInfo.Defs[n], n.Name), val})
 				}
 			}
-			return out + tail()
+			var f func(i int) string
+			f = func(i int) string {
+				if i == len(ds) {
+					return tail()
+				}
+				return x.let(ds[i].nm, ds[i].val, func() string { return f(i + 1) })
+			}
+			return x.hoistStmt(mark, func() string { return f(0) })
+		}
+	case *ast.IncDecStmt:
+		if x.t.strict {
+			nm, _ := x.lhsName(z.X)
+			op := " + 1"
+			if z.Tok == token.DEC {
+				op = " - 1"
+			}
+			if x.kindOf(z.X) != "Z" {
+				x.bad(z, "increment of a non-integer")
+			}
+			x.stateWrite(z.X, nm)
+			return x.let(nm, "("+x.use(nm)+op+")", tail)
 		}
 	case *ast.AssignStmt:
+		if x.t.strict {
+			return x.assignStrict(z, tail)
+		}
 		if len(z.Lhs) == 1 && len(z.Rhs) == 1 {
 			if x.ignorable(z.Lhs[0]) {
 				x.notes = append(x.notes, "ignored (untracked field): "+clip(src(z)))
@@ -378,22 +1366,75 @@ func (x *tr) seq(stmts []ast.Stmt, k func() string) string {
 		}
 		x.bad(z, "assignment form")
 	case *ast.ReturnStmt:
-		if len(z.Results) == 0 {
-			return x.t.final
+		if !x.t.strict {
+			if len(z.Results) == 0 {
+				return x.t.final
+			}
+			if id, ok := z.Results[0].(*ast.Ident); ok && id.Name == x.recv {
+				return x.t.final
+			}
+			if len(z.Results) == 1 {
+				return x.expr(z.Results[0])
+			}
+			var parts []string
+			for _, r := range z.Results {
+				parts = append(parts, x.expr(r))
+			}
+			return "(" + strings.Join(parts, ", ") + ")"
 		}
-		if id, ok := z.Results[0].(*ast.Ident); ok && id.Name == x.recv {
-			return x.t.final
+		if len(x.loops) > 0 {
+			// return inside a loop: Go assigns the values to the named results, the fold stops and
+			// the function ends with them
+			lc := x.loops[len(x.loops)-1]
+			if lc.ret == nil || (len(z.Results) > 0 && len(z.Results) != len(x.named)) {
+				x.bad(z, "return inside a loop of a function without named results")
+			}
+			if len(z.Results) == 0 {
+				return lc.ret()
+			}
+			mark := len(x.pending)
+			var vals []string
+			for _, r := range z.Results {
+				vals = append(vals, x.expr(r))
+			}
+			return x.hoistStmt(mark, func() string { return x.letTuple(x.named, tuple(vals), lc.ret) })
 		}
-		if len(z.Results) == 1 {
-			return x.expr(z.Results[0])
+		return x.results(z)
+	case *ast.BranchStmt:
+		if x.t.strict && z.Label == nil && len(x.loops) > 0 {
+			lc := x.loops[len(x.loops)-1]
+			switch {
+			case z.Tok == token.CONTINUE:
+				return lc.cont()
+			case z.Tok == token.BREAK && lc.brk != nil:
+				return lc.brk()
+			}
 		}
-		var parts []string
-		for _, r := range z.Results {
-			parts = append(parts, x.expr(r))
-		}
-		return "(" + strings.Join(parts, ", ") + ")"
+		x.bad(z, "branch statement outside the fragment")
 	case *ast.ExprStmt:
 		if c, ok := z.X.(*ast.CallExpr); ok {
+			if x.t.strict {
+				key := x.callKey(c)
+				if cs, ok := x.t.calls[key]; ok {
+					if cs.tail != "" {
+						x.checkArgs(c)
+						if len(x.loops) > 0 {
+							x.bad(z, "tail call inside a loop")
+						}
+						if after := tail(); after != x.t.final {
+							x.bad(z, "call declared as a tail call is followed by more work")
+						}
+						return "(" + cs.tail + " " + strings.Join(x.t.effects, " ") + ")"
+					}
+					return x.effectCall(c, cs, nil, z, tail)
+				}
+				switch key {
+				case "panic":
+					x.checkArgs(c)
+					return x.panicTerm()
+				}
+				x.bad(z, "call with unknown effect ("+key+")")
+			}
 			switch src(c.Fun) {
 			case "panic":
 				return "ActPanic"
@@ -411,106 +1452,41 @@ func (x *tr) seq(stmts []ast.Stmt, k func() string) string {
 			as, ok := z.Init.(*ast.AssignStmt)
 			if ok && len(as.Lhs) == 2 && len(as.Rhs) == 1 {
 				if ix, ok := as.Rhs[0].(*ast.IndexExpr); ok {
-					v, _ := x.lhsName(as.Lhs[0])
-					okName := src(as.Lhs[1])
-					neg := false
-					switch c := z.Cond.(type) {
-					case *ast.Ident:
-						if c.Name != okName {
-							x.bad(z, "map lookup condition")
-						}
-					case *ast.UnaryExpr:
-						if c.Op != token.NOT || src(c.X) != okName {
-							x.bad(z, "map lookup condition")
-						}
-						neg = true
-					case *ast.BinaryExpr: // ok && len(ed) > 0 style
-						x.bad(z, "compound map lookup condition")
-					}
-					m := x.expr(ix.X)
-					if !strings.HasPrefix(m, "g_") {
-						x.bad(z, "lookup in something that is not a package table")
-					}
-					m = "m_" + m[2:]
-					delete(x.free, "g_"+m[2:])
-					x.use(m)
-					look := "lookupZ"
-					if x.kindOf(ix.Index) == "bytes" {
-						look = "lookupB"
-					}
-					vk := kindOfType(x.p.TypesInfo.TypeOf(as.Lhs[0]))
-					rest := append([]ast.Stmt{}, stmts[1:]...)
-					var els []ast.Stmt
-					if b, ok := z.Else.(*ast.BlockStmt); ok {
-						els = b.List
-					} else if z.Else != nil {
-						els = []ast.Stmt{z.Else}
-					}
-					found, missing := z.Body.List, els
-					if neg {
-						found, missing = els, z.Body.List
-					}
-					bind := v
-					if v == "" {
-						bind = "_"
-					}
-					some := x.seq(append(append([]ast.Stmt{}, found...), rest...), k)
-					none := x.seq(append(append([]ast.Stmt{}, missing...), rest...), k)
-					if v != "" {
-						none = fmt.Sprintf("let %s := %s in %s", v, zeroOf(vk), none)
-					}
-					return fmt.Sprintf("match %s %s %s with\n  | Some %s => %s\n  | None => %s\n  end", look, m, x.expr(ix.Index), bind, some, none)
+					return x.lookupIf(z, as, ix, rest, k)
 				}
+				if ta, ok := as.Rhs[0].(*ast.TypeAssertExpr); ok && x.t.strict {
+					return x.assertIf(z, as, ta, rest, k)
+				}
+			}
+			if x.t.strict {
+				// if INIT; COND {..}  =  INIT; if COND {..}   (names are checked for shadowing, so the
+				// wider scope of INIT's variables cannot capture anything)
+				plain := *z
+				plain.Init = nil
+				return x.seq(cat([]ast.Stmt{z.Init, &plain}, rest), k)
 			}
 			x.bad(z, "if with init")
 		}
-		rest := stmts[1:]
-		var els []ast.Stmt
-		if b, ok := z.Else.(*ast.BlockStmt); ok {
-			els = b.List
-		} else if z.Else != nil {
-			els = []ast.Stmt{z.Else}
+		els := elseList(z)
+		if x.t.strict {
+			mark := len(x.pending)
+			c := x.expr(z.Cond)
+			return x.hoistStmt(mark, func() string {
+				th := x.seq(cat(z.Body.List, rest), k)
+				el := x.seq(cat(els, rest), k)
+				return fmt.Sprintf("if %s\n  then %s\n  else %s", c, th, el)
+			})
 		}
 		c := x.expr(z.Cond)
-		th := x.seq(append(append([]ast.Stmt{}, z.Body.List...), rest...), k)
-		el := x.seq(append(append([]ast.Stmt{}, els...), rest...), k)
+		th := x.seq(cat(z.Body.List, rest), k)
+		el := x.seq(cat(els, rest), k)
 		return fmt.Sprintf("if %s\n  then %s\n  else %s", c, th, el)
 	case *ast.SwitchStmt:
-		if z.Init != nil || z.Tag == nil {
-			x.bad(z, "switch form")
-		}
-		tag := x.expr(z.Tag)
-		rest := stmts[1:]
-		var def []ast.Stmt
-		type arm struct {
-			cond string
-			body []ast.Stmt
-		}
-		var arms []arm
-		for _, c := range z.Body.List {
-			cc := c.(*ast.CaseClause)
-			for _, st := range cc.Body {
-				if br, ok := st.(*ast.BranchStmt); ok && br.Tok == token.FALLTHROUGH {
-					x.bad(z, "fallthrough")
-				}
-			}
-			if cc.List == nil {
-				def = cc.Body
-				continue
-			}
-			var cs []string
-			for _, e := range cc.List {
-				cs = append(cs, "("+tag+" =? "+x.expr(e)+")")
-			}
-			arms = append(arms, arm{strings.Join(cs, " || "), cc.Body})
-		}
-		out := x.seq(append(append([]ast.Stmt{}, def...), rest...), k)
-		for i := len(arms) - 1; i >= 0; i-- {
-			b := x.seq(append(append([]ast.Stmt{}, arms[i].body...), rest...), k)
-			out = fmt.Sprintf("if %s then %s\n  else %s", arms[i].cond, b, out)
-		}
-		return out
+		return x.switchStmt(z, rest, k)
 	case *ast.RangeStmt:
+		if x.t.strict {
+			return x.rangeStrict(z, tail)
+		}
 		if z.Value == nil {
 			x.bad(z, "range form")
 		}
@@ -559,13 +1535,604 @@ func (x *tr) seq(stmts []ast.Stmt, k func() string) string {
 	return ""
 }
 
+// assignStrict: assignments of the second-generation targets
+func (x *tr) assignStrict(z *ast.AssignStmt, tail func() string) string {
+	// call with a declared rendering on the right
+	if len(z.Rhs) == 1 {
+		if c, ok := z.Rhs[0].(*ast.CallExpr); ok {
+			if cs, ok := x.t.calls[x.callKey(c)]; ok && cs.pure == "" {
+				if z.Tok != token.ASSIGN && z.Tok != token.DEFINE {
+					x.bad(z, "assignment operator with a call that has effects")
+				}
+				var lhs []string
+				for _, l := range z.Lhs {
+					if id, ok := l.(*ast.Ident); ok && id.Name == "_" {
+						lhs = append(lhs, "_")
+						continue
+					}
+					nm, _ := x.lhsName(l)
+					lhs = append(lhs, nm)
+				}
+				return x.effectCall(c, cs, lhs, z, tail)
+			}
+		}
+	}
+	if len(z.Lhs) != len(z.Rhs) {
+		x.bad(z, "assignment form")
+	}
+	mark := len(x.pending)
+	var names, vals []string
+	for i := range z.Lhs {
+		if id, ok := z.Lhs[i].(*ast.Ident); ok && id.Name == "_" {
+			x.expr(z.Rhs[i])
+			continue
+		}
+		if x.ignorable(z.Lhs[i]) {
+			x.expr(z.Rhs[i]) // must be pure and inside the fragment all the same
+			x.notes = append(x.notes, "ignored (untracked field): "+clip(src(z.Lhs[i])+" = "+src(z.Rhs[i])))
+			continue
+		}
+		nm, _ := x.lhsName(z.Lhs[i])
+		lk, rk := x.exprKind(z.Lhs[i]), x.exprKind(z.Rhs[i])
+		rhs := ""
+		if id, ok := z.Rhs[i].(*ast.Ident); ok && id.Name == "nil" {
+			rhs, rk = x.nilOf(lk, z), lk // an untyped nil takes the type of what it is assigned to
+		} else {
+			rhs = x.expr(z.Rhs[i])
+		}
+		if lk == "?" || (lk != rk && !(strings.HasPrefix(lk, "gomap ") && strings.HasPrefix(rk, "map "))) {
+			x.bad(z, "assignment between different translated types ("+lk+" := "+rk+")")
+		}
+		switch z.Tok {
+		case token.ASSIGN, token.DEFINE:
+		case token.OR_ASSIGN:
+			rhs = "(Z.lor " + x.use(nm) + " " + rhs + ")"
+		case token.ADD_ASSIGN:
+			switch lk {
+			case "Z":
+				rhs = "(" + x.use(nm) + " + " + rhs + ")"
+			case "bytes":
+				rhs = "(" + x.use(nm) + " ++ " + rhs + ")"
+			default:
+				x.bad(z, "assignment operator")
+			}
+		case token.SUB_ASSIGN:
+			if lk != "Z" {
+				x.bad(z, "assignment operator")
+			}
+			rhs = "(" + x.use(nm) + " - " + rhs + ")"
+		default:
+			x.bad(z, "assignment operator")
+		}
+		if z.Tok == token.ASSIGN {
+			x.use(nm) // plain assignment to something that is not in scope (a field the target does not track)
+		}
+		x.stateWrite(z.Lhs[i], nm)
+		names = append(names, nm)
+		vals = append(vals, rhs)
+	}
+	return x.hoistStmt(mark, func() string {
+		if len(names) == 0 {
+			return tail()
+		}
+		return x.letTuple(names, tuple(vals), tail)
+	})
+}
+
+// lookupIf: if v, ok := m[k]; COND { A } else { B }
+func (x *tr) lookupIf(z *ast.IfStmt, as *ast.AssignStmt, ix *ast.IndexExpr, rest []ast.Stmt, k func() string) string {
+	v, _ := x.lhsName(as.Lhs[0])
+	okName := src(as.Lhs[1])
+	simple, neg := false, false
+	switch c := z.Cond.(type) {
+	case *ast.Ident:
+		if c.Name == okName {
+			simple = true
+		}
+	case *ast.UnaryExpr:
+		if c.Op == token.NOT && src(c.X) == okName {
+			simple, neg = true, true
+		}
+	}
+	if x.t.strict {
+		if okName != "_" {
+			okName, _ = x.lhsName(as.Lhs[1])
+		}
+		if _, isId := as.Lhs[0].(*ast.Ident); !isId {
+			x.bad(z, "map lookup form")
+		}
+	}
+	if !simple && !x.t.strict {
+		if _, isBin := z.Cond.(*ast.BinaryExpr); isBin {
+			x.bad(z, "compound map lookup condition")
+		}
+		x.bad(z, "map lookup condition")
+	}
+	if x.t.strict && (as.Tok != token.DEFINE || okName == "_") {
+		x.bad(z, "map lookup form")
+	}
+	mark := len(x.pending)
+	look, m := "lookupZ", ""
+	if !x.t.strict {
+		m = x.expr(ix.X)
+		if !strings.HasPrefix(m, "g_") {
+			x.bad(z, "lookup in something that is not a package table")
+		}
+		m = "m_" + m[2:]
+		delete(x.free, "g_"+m[2:])
+		x.use(m)
+	} else {
+		mk := x.exprKind(ix.X)
+		pkgTable := false
+		if id, ok := ix.X.(*ast.Ident); ok {
+			if v, ok := x.p.TypesInfo.Uses[id].(*types.Var); ok && v.Parent() == x.p.Types.Scope() {
+				// package table: a binder m_<name> (instantiated with Gen.Tables in the theorems)
+				if mt, ok := v.Type().Underlying().(*types.Map); ok && x.coqType(mt.Elem()) != "?" &&
+					(x.coqType(mt.Key()) == "bytes" || x.coqType(mt.Key()) == "Z") {
+					m = x.use("m_" + id.Name)
+					pkgTable = true
+				}
+			}
+		}
+		switch {
+		case pkgTable:
+		case strings.HasPrefix(mk, "gomap "):
+			look, m = "map_get", x.expr(ix.X)
+		case strings.HasPrefix(mk, "map "):
+			if _, isId := ix.X.(*ast.Ident); !isId {
+				x.bad(z, "lookup in something that is not a map of the fragment")
+			}
+			m = x.expr(ix.X)
+		default:
+			x.bad(z, "lookup in something that is not a map of the fragment")
+		}
+	}
+	if x.kindOf(ix.Index) == "bytes" {
+		look = "lookupB"
+	}
+	key := x.expr(ix.Index)
+	vk := ""
+	if x.t.strict {
+		vk = x.coqType(x.p.TypesInfo.TypeOf(as.Lhs[0]))
+	} else {
+		vk = kindOfType(x.p.TypesInfo.TypeOf(as.Lhs[0]))
+	}
+	els := elseList(z)
+	bindName := v
+	if v == "" {
+		bindName = "_"
+	}
+	if simple {
+		found, missing := z.Body.List, els
+		if neg {
+			found, missing = els, z.Body.List
+		}
+		if !x.t.strict {
+			some := x.seq(cat(found, rest), k)
+			none := x.seq(cat(missing, rest), k)
+			if v != "" {
+				none = fmt.Sprintf("let %s := %s in %s", v, zeroOf(vk), none)
+			}
+			return fmt.Sprintf("match %s %s %s with\n  | Some %s => %s\n  | None => %s\n  end", look, m, key, bindName, some, none)
+		}
+		return x.hoistStmt(mark, func() string {
+			var bn []string
+			if v != "" {
+				bn = []string{v}
+			}
+			some := x.bind(bn, func() string { return x.seq(cat(found, rest), k) })
+			// the not-found arm: v is the zero value, which a careful program does not look at; it is
+			// bound only if the arm mentions it
+			none := ""
+			if v != "" && x.mentions(cat(missing, rest), as.Lhs[0]) {
+				none = x.let(v, x.zeroOfKind(vk, z), func() string { return x.seq(cat(missing, rest), k) })
+			} else {
+				none = x.seq(cat(missing, rest), k)
+			}
+			return fmt.Sprintf("match %s %s %s with\n  | Some %s => %s\n  | None => %s\n  end", look, m, key, bindName, some, none)
+		})
+	}
+	// compound condition (strict): ok is an ordinary boolean in both arms
+	plain := *z
+	plain.Init = nil
+	return x.hoistStmt(mark, func() string {
+		var bn []string
+		if v != "" {
+			bn = []string{v}
+		}
+		some := x.bind(bn, func() string {
+			return x.let(okName, "true", func() string { return x.seq(cat([]ast.Stmt{&plain}, rest), k) })
+		})
+		noneBody := func() string {
+			return x.let(okName, "false", func() string { return x.seq(cat([]ast.Stmt{&plain}, rest), k) })
+		}
+		none := ""
+		if v != "" {
+			none = x.let(v, x.zeroOfKind(vk, z), noneBody)
+		} else {
+			none = noneBody()
+		}
+		return fmt.Sprintf("match %s %s %s with\n  | Some %s => %s\n  | None => %s\n  end", look, m, key, bindName, some, none)
+	})
+}
+
+// mentions: do the statements refer to the variable defined by id?
+func (x *tr) mentions(stmts []ast.Stmt, def ast.Expr) bool {
+	id, ok := def.(*ast.Ident)
+	if !ok {
+		return true
+	}
+	obj := x.p.TypesInfo.ObjectOf(id)
+	found := false
+	for _, s := range stmts {
+		ast.Inspect(s, func(n ast.Node) bool {
+			if u, ok := n.(*ast.Ident); ok && x.p.TypesInfo.Uses[u] == obj && obj != nil {
+				found = true
+			}
+			return true
+		})
+	}
+	return found
+}
+
+// assertIf: if v, ok := e.(T); COND { A } else { B }: the assertion is an oracle as_<T>_of_<S> the target declares
+func (x *tr) assertIf(z *ast.IfStmt, as *ast.AssignStmt, ta *ast.TypeAssertExpr, rest []ast.Stmt, k func() string) string {
+	if as.Tok != token.DEFINE || ta.Type == nil {
+		x.bad(z, "type assertion form")
+	}
+	v, _ := x.lhsName(as.Lhs[0])
+	okName := src(as.Lhs[1])
+	if okName == "_" {
+		x.bad(z, "type assertion form")
+	}
+	if _, isId := as.Lhs[0].(*ast.Ident); !isId {
+		x.bad(z, "type assertion form")
+	}
+	st := types.TypeString(x.p.TypesInfo.TypeOf(ta.X), x.qual)
+	tt := types.TypeString(x.p.TypesInfo.TypeOf(ta.Type), x.qual)
+	fn := x.use("as_" + sanitize(strings.TrimPrefix(tt, "*")) + "_of_" + sanitize(strings.TrimPrefix(st, "*")))
+	if x.coqType(x.p.TypesInfo.TypeOf(ta.Type)) == "?" || x.coqType(x.p.TypesInfo.TypeOf(ta.X)) == "?" {
+		x.bad(z, "type assertion between types the target does not map")
+	}
+	e := x.expr(ta.X)
+	els := elseList(z)
+	bindName := v
+	var bn []string
+	if v == "" {
+		bindName = "_"
+	} else {
+		bn = []string{v}
+	}
+	simple, neg := false, false
+	switch c := z.Cond.(type) {
+	case *ast.Ident:
+		simple = c.Name == okName
+	case *ast.UnaryExpr:
+		if c.Op == token.NOT && src(c.X) == okName {
+			simple, neg = true, true
+		}
+	}
+	if !simple {
+		x.bad(z, "compound type assertion condition")
+	}
+	found, missing := z.Body.List, els
+	if neg {
+		found, missing = els, z.Body.List
+	}
+	if v != "" && x.mentions(cat(missing, rest), as.Lhs[0]) {
+		x.bad(z, "the failed arm of a type assertion uses the asserted value")
+	}
+	some := x.bind(bn, func() string { return x.seq(cat(found, rest), k) })
+	none := x.seq(cat(missing, rest), k)
+	return fmt.Sprintf("match %s %s with\n  | Some %s => %s\n  | None => %s\n  end", fn, e, bindName, some, none)
+}
+
+func (x *tr) switchStmt(z *ast.SwitchStmt, rest []ast.Stmt, k func() string) string {
+	if !x.t.strict && (z.Init != nil || z.Tag == nil) {
+		x.bad(z, "switch form")
+	}
+	if z.Init != nil {
+		plain := *z
+		plain.Init = nil
+		return x.seq(cat([]ast.Stmt{z.Init, &plain}, rest), k)
+	}
+	tag := ""
+	if z.Tag != nil {
+		mark := len(x.pending)
+		tag = x.expr(z.Tag)
+		x.noPending(mark, z)
+		if x.t.strict && x.kindOf(z.Tag) != "Z" {
+			x.bad(z, "switch on a non-integer")
+		}
+	}
+	type clause struct {
+		cond string
+		def  bool
+		body []ast.Stmt
+		fall bool
+	}
+	var cls []clause
+	for _, c := range z.Body.List {
+		cc := c.(*ast.CaseClause)
+		cl := clause{body: cc.Body}
+		for i, st := range cc.Body {
+			if br, ok := st.(*ast.BranchStmt); ok {
+				if br.Tok == token.FALLTHROUGH && x.t.strict && i == len(cc.Body)-1 {
+					cl.fall = true
+					cl.body = cc.Body[:i]
+					continue
+				}
+				if br.Tok == token.FALLTHROUGH {
+					x.bad(z, "fallthrough")
+				}
+			}
+		}
+		if x.t.strict {
+			for _, st := range cc.Body {
+				ast.Inspect(st, func(n ast.Node) bool {
+					switch n.(type) {
+					case *ast.ForStmt, *ast.RangeStmt, *ast.SwitchStmt, *ast.TypeSwitchStmt, *ast.SelectStmt:
+						return false
+					}
+					if br, ok := n.(*ast.BranchStmt); ok && br.Tok == token.BREAK {
+						x.bad(z, "break inside a switch")
+					}
+					return true
+				})
+			}
+		}
+		if cc.List == nil {
+			cl.def = true
+		} else {
+			var cs []string
+			for _, e := range cc.List {
+				mark := len(x.pending)
+				if z.Tag != nil {
+					cs = append(cs, "("+tag+" =? "+x.expr(e)+")")
+				} else {
+					cs = append(cs, x.expr(e))
+				}
+				x.noPending(mark, e)
+			}
+			cl.cond = strings.Join(cs, " || ")
+		}
+		cls = append(cls, cl)
+	}
+	// body of clause i with the clauses it falls through to
+	var eff func(i int) []ast.Stmt
+	eff = func(i int) []ast.Stmt {
+		if cls[i].fall {
+			if i+1 >= len(cls) {
+				x.bad(z, "fallthrough out of the last clause")
+			}
+			return cat(cls[i].body, eff(i+1))
+		}
+		return cls[i].body
+	}
+	var def []ast.Stmt
+	for i := range cls {
+		if cls[i].def {
+			def = eff(i)
+		}
+	}
+	var build func(i int) string
+	build = func(i int) string {
+		for i < len(cls) && cls[i].def {
+			i++
+		}
+		if i == len(cls) {
+			return x.seq(cat(def, rest), k)
+		}
+		b := x.seq(cat(eff(i), rest), k)
+		return fmt.Sprintf("if %s then %s\n  else %s", cls[i].cond, b, build(i+1))
+	}
+	return build(0)
+}
+
+// rangeStrict: for _, v := range xs { body } (a slice) or for k, v := range m { body } (a package-level
+// map, ranged in the order of the table the binder m_<name> stands for) as a fold over the variables
+// the body assigns.  A body that can panic folds over option state (None = it panicked).
+func (x *tr) rangeStrict(z *ast.RangeStmt, tail func() string) string {
+	if z.Tok != token.DEFINE {
+		x.bad(z, "range form")
+	}
+	rangeVar := func(e ast.Expr) string {
+		if e == nil {
+			return "_"
+		}
+		id, ok := e.(*ast.Ident)
+		if !ok {
+			x.bad(z, "range form")
+		}
+		if id.Name == "_" {
+			return "_"
+		}
+		return x.objName(x.p.TypesInfo.Defs[id], id.Name)
+	}
+	var coll, elk, elPat string
+	var elNames []string
+	if _, isMap := x.p.TypesInfo.TypeOf(z.X).Underlying().(*types.Map); isMap {
+		mt := x.p.TypesInfo.TypeOf(z.X).Underlying().(*types.Map)
+		name := x.pkgVar(z.X)
+		kk, vk := x.coqType(mt.Key()), x.coqType(mt.Elem())
+		if name == "" || kk == "?" || vk == "?" {
+			x.bad(z, "range over a map that is not a package-level table of the fragment")
+		}
+		coll = x.use("m_" + name)
+		elk = paren(kk) + " * " + paren(vk)
+		k, v := rangeVar(z.Key), rangeVar(z.Value)
+		elPat = "'(" + k + ", " + v + ")"
+		for _, n := range []string{k, v} {
+			if n != "_" {
+				elNames = append(elNames, n)
+			}
+		}
+	} else {
+		if z.Value == nil || rangeVar(z.Key) != "_" {
+			x.bad(z, "range with an index variable")
+		}
+		ck := x.kindOf(z.X)
+		if !strings.HasPrefix(ck, "list ") {
+			x.bad(z, "range over something that is not a slice of the fragment")
+		}
+		elk = ck[5:]
+		mark := len(x.pending)
+		coll = x.expr(z.X)
+		x.noPending(mark, z)
+		v := rangeVar(z.Value)
+		if v == "_" {
+			x.bad(z, "range form")
+		}
+		elNames = []string{v}
+	}
+	hasBrk, hasRet := false, false
+	ast.Inspect(z.Body, func(n ast.Node) bool {
+		switch b := n.(type) {
+		case *ast.ReturnStmt:
+			hasRet = true
+			if len(x.named) == 0 {
+				x.bad(z, "return inside a loop of a function without named results")
+			}
+		case *ast.BranchStmt:
+			switch {
+			case b.Label != nil:
+				x.bad(z, "labelled branch inside a loop")
+			case b.Tok == token.BREAK:
+				hasBrk = true // (a break inside a switch is rejected by the switch)
+			case b.Tok != token.CONTINUE:
+				x.bad(z, "goto / fallthrough inside a loop")
+			}
+		case *ast.ForStmt, *ast.RangeStmt, *ast.SelectStmt, *ast.FuncLit:
+			x.bad(z, "nested loop / select / function literal")
+		}
+		return true
+	})
+	canPanic := x.partialInside(z.Body.List)
+	if canPanic && x.t.panicT == "" {
+		x.bad(z, "operation that can panic inside a loop of a target without a panic outcome")
+	}
+	vars := x.outerAssigned(z.Body.List)
+	if len(vars) == 0 {
+		x.bad(z, "loop without a tracked effect")
+	}
+	for _, v := range vars {
+		x.use(v)
+	}
+	// the fold state: the variables, then brk_ (the loop was left) and ret_ (.. by a return)
+	all := append([]string{}, vars...)
+	var init, cont, brk, ret []string
+	init, cont, brk, ret = append(init, vars...), append(cont, vars...), append(brk, vars...), append(ret, vars...)
+	if hasBrk || hasRet {
+		all, init, cont, brk, ret = append(all, "brk_"), append(init, "false"), append(cont, "false"), append(brk, "true"), append(ret, "true")
+	}
+	if hasRet {
+		all, init, cont, brk, ret = append(all, "ret_"), append(init, "false"), append(cont, "false"), append(brk, "false"), append(ret, "true")
+	}
+	wrap := func(t []string) func() string {
+		if canPanic {
+			return func() string { return "Some " + paren(tuple(t)) }
+		}
+		return func() string { return tuple(t) }
+	}
+	lc := &loopCtx{cont: wrap(cont)}
+	if hasBrk {
+		lc.brk = wrap(brk)
+	}
+	if hasRet {
+		lc.ret = wrap(ret)
+	}
+	x.loops = append(x.loops, lc)
+	if canPanic {
+		x.optLoop++
+	}
+	// the element: a plain binder, or a pair pattern for a map
+	elBinder, elOpen := "", ""
+	if elPat != "" {
+		elBinder, elOpen = "(kv_ : "+elk+")", "let "+elPat+" := kv_ in\n  "
+	} else {
+		elBinder = "(" + elNames[0] + " : " + elk + ")"
+	}
+	body := x.bind(append(append([]string{}, elNames...), all...), func() string { return x.seq(z.Body.List, lc.cont) })
+	body = elOpen + body
+	stName := "st_"
+	if len(all) == 1 {
+		stName = all[0]
+	} else {
+		if hasBrk || hasRet {
+			stop := "st_"
+			if canPanic {
+				stop = "Some st_"
+			}
+			body = "if (brk_ : bool) then " + stop + " else\n  " + body
+		}
+		body = "let '" + tuple(all) + " := st_ in\n  " + body
+	}
+	var lam string
+	if canPanic {
+		lam = fmt.Sprintf("(fun ost_ %s => match ost_ with\n  | None => None\n  | Some %s => %s\n  end)", elBinder, stName, body)
+	} else {
+		lam = fmt.Sprintf("(fun %s %s => %s)", stName, elBinder, body)
+	}
+	if canPanic {
+		x.optLoop--
+	}
+	x.loops = x.loops[:len(x.loops)-1]
+	after := tail
+	if hasRet {
+		if len(x.loops) > 0 {
+			x.bad(z, "return inside a nested loop")
+		}
+		after = func() string {
+			return fmt.Sprintf("if (ret_ : bool) then %s\n  else %s", x.t.final, tail())
+		}
+	}
+	if canPanic {
+		rest := x.bind(all, after)
+		return fmt.Sprintf("match fold_left %s %s (Some %s) with\n  | None => %s\n  | Some %s => %s\n  end",
+			lam, coll, paren(tuple(init)), x.panicTerm(), patTuple(all), rest)
+	}
+	return x.letTuple(all, fmt.Sprintf("fold_left %s %s %s", lam, coll, tuple(init)), after)
+}
+
+func patTuple(names []string) string {
+	if len(names) == 1 {
+		return names[0]
+	}
+	return "(" + strings.Join(names, ", ") + ")"
+}
+
+// partialInside: do the statements contain an operation that can panic?
+func (x *tr) partialInside(stmts []ast.Stmt) bool {
+	found := false
+	for _, s := range stmts {
+		ast.Inspect(s, func(n ast.Node) bool {
+			switch z := n.(type) {
+			case *ast.SliceExpr:
+				found = true
+			case *ast.IndexExpr:
+				if _, isMap := x.p.TypesInfo.TypeOf(z.X).Underlying().(*types.Map); !isMap {
+					found = true
+				}
+			case *ast.CallExpr:
+				key := x.callKey(z)
+				if cs, ok := x.t.calls[key]; (ok && cs.partial) || key == "strings.Repeat" || key == "panic" {
+					found = true
+				}
+			}
+			return true
+		})
+	}
+	return found
+}
+
 func translate(t *target) (def string, ok bool, why string) {
 	p := t.pkg()
 	fd := findFunc(p, t.recv, t.fn)
 	if fd == nil {
 		return "", false, "function not found"
 	}
-	x := &tr{t: t, p: p, fd: fd, free: map[string]bool{}}
+	x := &tr{t: t, p: p, fd: fd, free: map[string]bool{}, bound: map[string]int{}, ignored: map[types.Object]bool{}, names: map[types.Object]string{}, namedPos: map[string]token.Pos{}}
+	x.fscope = p.TypesInfo.Scopes[fd.Type]
 	if fd.Recv != nil && len(fd.Recv.List[0].Names) > 0 {
 		x.recv = fd.Recv.List[0].Names[0].Name
 	}
@@ -578,6 +2145,17 @@ func translate(t *target) (def string, ok bool, why string) {
 			panic(r)
 		}
 	}()
+	declared := map[string]bool{}
+	for _, b := range t.params {
+		nm := strings.TrimSpace(strings.Split(strings.Trim(b, "()"), ":")[0])
+		for _, n := range strings.Fields(nm) {
+			declared[n] = true
+			x.bound[n]++
+		}
+	}
+	for _, g := range t.globals {
+		x.bound[g]++
+	}
 	var body string
 	if t.cond != nil {
 		c := t.cond(fd)
@@ -585,6 +2163,7 @@ func translate(t *target) (def string, ok bool, why string) {
 			return "", false, "condition not found"
 		}
 		body = x.expr(c)
+		x.noPending(0, c)
 	} else {
 		stmts := fd.Body.List
 		if t.from != nil {
@@ -593,16 +2172,35 @@ func translate(t *target) (def string, ok bool, why string) {
 				return "", false, "start statement not found"
 			}
 		}
-		body = x.seq(stmts, func() string { return t.final })
-	}
-	// every free variable must be a declared binder
-	declared := map[string]bool{}
-	for _, b := range t.params {
-		nm := strings.TrimSpace(strings.Split(strings.Trim(b, "()"), ":")[0])
-		for _, n := range strings.Fields(nm) {
-			declared[n] = true
+		if t.strict {
+			// named results start at their zero values
+			type nr struct{ nm, val string }
+			var nrs []nr
+			if fd.Type.Results != nil {
+				for _, f := range fd.Type.Results.List {
+					for _, n := range f.Names {
+						if n.Name == "_" {
+							continue
+						}
+						nrs = append(nrs, nr{x.ident(n.Name), x.zeroOfKind(x.coqType(p.TypesInfo.Defs[n].Type()), n)})
+						x.named = append(x.named, x.ident(n.Name))
+						x.namedPos[x.ident(n.Name)] = n.Pos()
+					}
+				}
+			}
+			var f func(i int) string
+			f = func(i int) string {
+				if i == len(nrs) {
+					return x.seq(stmts, func() string { return t.final })
+				}
+				return x.let(nrs[i].nm, nrs[i].val, func() string { return f(i + 1) })
+			}
+			body = f(0)
+		} else {
+			body = x.seq(stmts, func() string { return t.final })
 		}
 	}
+	// every free variable must be a declared binder
 	for v := range x.free {
 		if !declared[v] {
 			// variables bound by let inside the body are fine: check textual binding
@@ -613,6 +2211,9 @@ func translate(t *target) (def string, ok bool, why string) {
 			}
 		}
 	}
+	if t.strict {
+		body = reindent(body)
+	}
 	notes := ""
 	seenNote := map[string]bool{}
 	for _, n := range x.notes {
@@ -620,7 +2221,58 @@ func translate(t *target) (def string, ok bool, why string) {
 			continue
 		}
 		seenNote[n] = true
+		if t.strict {
+			n = commentSafe(n)
+		}
 		notes += "   (* " + strings.ReplaceAll(n, "*)", "* )") + " *)\n"
 	}
 	return fmt.Sprintf("(* %s.%s  %s *)\n%sDefinition %s %s : %s :=\n  %s.\n", t.recv, t.fn, t.comment, notes, t.coq, strings.Join(t.params, " "), t.result, body), true, ""
+}
+
+// reindent lays the generated term out by the nesting of match .. end and of parentheses
+// (layout only: the tokens and their order are untouched)
+func reindent(body string) string {
+	words := func(line, w string) int {
+		n := 0
+		for i := 0; i+len(w) <= len(line); i++ {
+			if line[i:i+len(w)] != w {
+				continue
+			}
+			isId := func(c byte) bool {
+				return c == '_' || c == '\'' || c >= '0' && c <= '9' || c >= 'a' && c <= 'z' || c >= 'A' && c <= 'Z'
+			}
+			if i > 0 && isId(line[i-1]) || i+len(w) < len(line) && isId(line[i+len(w)]) {
+				continue
+			}
+			n++
+		}
+		return n
+	}
+	var out []string
+	depth, par := 0, 0
+	for _, raw := range strings.Split(body, "\n") {
+		line := strings.TrimSpace(raw)
+		if line == "" {
+			continue
+		}
+		ind := 2*depth + 2*par
+		switch {
+		case strings.HasPrefix(line, "| "), strings.HasPrefix(line, "end"):
+		case depth > 0:
+			ind += 2
+		}
+		if len(out) > 0 {
+			line = strings.Repeat(" ", 2+ind) + line
+		}
+		out = append(out, line)
+		depth += words(line, "match") - words(line, "end")
+		par += strings.Count(line, "(") - strings.Count(line, ")")
+		if depth < 0 {
+			depth = 0
+		}
+		if par < 0 {
+			par = 0
+		}
+	}
+	return strings.Join(out, "\n")
 }
